@@ -37,6 +37,10 @@ Inductive ccase :=
         (b : bobs) (m : option mres) (step_ids : list N)
         (inj : option (list (N * list N)))   (* per mapper port: the tokens the real _inject_tokens put into it *)
 | CMapper (ops : list (mop * mres))
+| CSync (adds : list mop) (jts : list N) (o : mres)
+   (* a GraphMapper built by [adds] (GraphMapper.add calls in this order), then the real
+      RollbackFailureManager._synchronize_workflows with the jobs of the job tokens [jts] being recovered elsewhere;
+      [o]: the mapper afterwards *)
 | CEngine (evs : list (db * list N * bobs)) (reruns : list (list N)).
    (* a real recovered run: for every recovery that was planned, the provenance table dumped from the real database
       with the independently recorded availability, the real inputs and the real built graph; [reruns]: for every
@@ -127,8 +131,21 @@ Definition permitted_tokens (evs : list (db * list N * bobs)) : list N :=
                      | _ => []
                      end) evs.
 
+Fixpoint run_mops (order : list node -> list node) (m : mapper) (ops : list mop) : mapper + merr :=
+  match ops with
+  | [] => inl m
+  | op :: rest => match apply_mop order m op with inl m' => run_mops order m' rest | inr e => inr e end
+  end.
+
+Definition sync_ok (order : list node -> list node) (adds : list mop) (jts : list N) (o : mres) : bool :=
+  match run_mops order empty_mapper adds with
+  | inl m => mres_ok (inl (sync_mapper order m jts)) o
+  | inr _ => false
+  end.
+
 Definition check_case (c : ccase) : bool :=
   match c with
+  | CSync adds jts o => sync_ok (fun l => l) adds jts o && sync_ok (@rev node) adds jts o
   | CEngine evs reruns =>
       forallb (fun e => build_ok (fst (fst e)) (snd (fst e)) (snd e)) evs
       && forallb (fun ids => existsb (fun t => mem t (permitted_tokens evs)) ids) reruns
